@@ -10,6 +10,8 @@ import (
 
 	"sync/atomic"
 
+	"verif/harness/common"
+
 	"github.com/fogfish/golem/pipe/v2"
 	"github.com/fogfish/golem/pipe/v2/fork"
 	"github.com/fogfish/golem/pure/monoid"
@@ -703,4 +705,53 @@ func progsFoldMeet(t *testing.T, prop string) {
 			}
 		}
 	}
+}
+
+// ---------------------------------------------------------------- C13: rates at the edge of the domain (real clock)
+
+// ops of 2^40 and MaxInt per interval: the bucket (a channel of struct{}) needs no memory, the call returns at once
+// and every element is due immediately. Real clock, outside a bubble (the pacer of such a stage never sleeps, a
+// virtual clock could not advance next to it). A call that does not come back is reported by the soak guard as
+// inconclusive - a wall-clock watchdog is never a verdict - so such a tree cannot read as "held" either.
+func realTimeHugeOps(prop string, ops int, fk bool) {
+	c := &caseT{Site: "Throttling/huge-ops", Stage: "Throttling/huge-ops", N: ops, Tick: int64(time.Hour), Comment: fmt.Sprint("real clock, fork=", fk)}
+	id := common.ID(fmt.Sprint("rt-huge-ops", ops, fk))
+	if common.Skip(id) {
+		return
+	}
+	rec.Begin(id, c)
+	defer rec.End(id)
+	ctx, cancel := context.WithCancel(context.Background())
+	defer cancel()
+	in := make(chan int, 4)
+	var got []int
+	ok := soakGuard("Throttling/huge-ops", func() {
+		var out <-chan int
+		if fk {
+			out = fork.Throttling(ctx, in, ops, time.Hour)
+		} else {
+			out = pipe.Throttling(ctx, in, ops, time.Hour)
+		}
+		go func() {
+			defer close(in)
+			for i := 0; i < 50; i++ {
+				select {
+				case in <- i:
+				case <-ctx.Done():
+					return
+				}
+			}
+		}()
+		for v := range out {
+			got = append(got, v)
+		}
+	})
+	cancel()
+	if !ok {
+		return
+	}
+	if !slices.Equal(got, seqInts(0, 50)) {
+		rec.Violate(prop+"/Throttling/huge-ops/result", fmt.Sprintf("ops=%d per hour: %s", ops, diffAt(got, seqInts(0, 50))), c)
+	}
+	rec.Eval(fmt.Sprint("rt-huge-ops", ops, fk), true)
 }
